@@ -359,16 +359,34 @@ func (k *cmp) operand(slot string, got *insts.Operand, want isaenc.Operand, widt
 		}
 		k.add(sig, "%s %d: operand %s encoded as %s decodes to %s", k.f, k.op, slot, descOperand(want), gotOperand(got))
 	}
+	// An inline constant has no register count of its own, but Operand.ConstantBits
+	// picks the 64-bit or the 32-bit pattern of the constant by RegCount >= 2: that
+	// bit must agree with the ISA width of the slot.
+	constWidth := func() {
+		// (packed FP32, VOP3P 944-946: an inline constant is one 32-bit value replicated
+		// into both halves, so the decoder marks it narrow on purpose)
+		packed := k.f == isaenc.VOP3a && k.op >= 944 && k.op <= 946
+		if width > 0 && want.Kind != isaenc.KImm && !packed {
+			k.wchk++
+			if (got.RegCount >= 2) != (width >= 2) {
+				k.add("width:"+key, "%s %d: operand %s (%s) is %d dword(s) wide in the ISA, the decoded constant has RegCount=%d", k.f, k.op, slot, descOperand(want), width, got.RegCount)
+			}
+		}
+	}
 	switch want.Kind {
 	case isaenc.KInt, isaenc.KImm:
 		if got.OperandType != insts.IntOperand || got.IntValue != want.N {
 			bad()
+			return
 		}
+		constWidth()
 		return
 	case isaenc.KFloat:
 		if got.OperandType != insts.FloatOperand || got.FloatValue != want.F {
 			bad()
+			return
 		}
+		constWidth()
 		return
 	case isaenc.KLiteral:
 		if got.OperandType != insts.LiteralConstant || got.LiteralConstant != uint32(want.N) {
